@@ -298,6 +298,86 @@ def install(R):
         return SV("V", refind(pv, xv), meta={"seq": True})
     S["__re_findall__"] = re_findall
 
+    # ------------------------------------------------------------------ opaque callables with a ghost call log
+    callret = z3.Function("callret", Int, V)
+    R.symbols["callret"] = callret
+
+    def call_value(eng, fr, fv, args, kwargs, node):
+        """Call of a callable *parameter* (the user's function): appended to the ghost call log
+        (calls_kw[calls_n] := keyword mapping; calls_n += 1); returns callret(index); may raise."""
+        c = fr.contract
+        if c is None or not c.fn_params:
+            return None
+        pname = None
+        for nm in c.fn_params:
+            v = fr.st.env.get(nm)
+            if v is not None and v.k == fv.k and z3.eq(v.t, fv.t):
+                pname = nm
+        if pname is None:
+            return None
+        spec = c.fn_params[pname]
+        st = fr.st
+        g = st.ghost
+        n = g["calls_n"].t
+        if "**" in kwargs and len(kwargs) == 1:
+            kw = eng.as_V(kwargs["**"])
+        else:
+            kw = T.mempty
+            for k_, v_ in kwargs.items():
+                if k_ == "**":
+                    kw = T.mupdate(kw, eng.as_V(v_))
+                else:
+                    kw = T.mput(kw, T.VStr(z3.StringVal(k_)), eng.as_V(v_))
+        g["calls_kw"] = SV("z3", z3.Store(g["calls_kw"].t, n, kw))
+        g["calls_n"] = SV("z3", n + 1)
+        line = getattr(node, "lineno", None)
+        ev = Event("call", "fn:" + pname, args, kwargs, line, extra={"index": n, "kw": kw})
+        st.events.append(ev)
+        ret = callret(n)
+        kind = spec.get("ret", "V")
+        outs = []
+        if not spec.get("no_raise"):
+            s2 = st.fork()
+            s2.events.append(Event("raise", "AnyError", line=line, extra="fn:" + pname))
+            outs.append(Outcome("raise", s2, exc=SExc("AnyError", line=line, origin="fn:" + pname)))
+        if kind == "real":
+            st.assume(T.is_VReal(ret))
+            val = mk_real(T.rval(ret))
+        elif kind == "int":
+            st.assume(T.is_VInt(ret))
+            val = mk_int(T.ival(ret))
+        else:
+            val = mk_V(ret)
+        ev.extra["result"] = val
+        outs.insert(0, Outcome("normal", st, val=val))
+        return outs
+    S["__call_value__"] = call_value
+
+    def ncalls(eng, fr):
+        return mk_int(fr.st.ghost["calls_n"].t)
+    S["ncalls"] = ncalls
+
+    def call_kw(eng, fr, i):
+        return mk_V(z3.Select(fr.st.ghost["calls_kw"].t, eng.as_int(i, fr)))
+    S["call_kw"] = call_kw
+
+    def call_ret(eng, fr, i):
+        return mk_V(callret(eng.as_int(i, fr)))
+    S["call_ret"] = call_ret
+
+    def caught(eng, fr, name):
+        nm = name.t.as_string()
+        return mk_bool(any(e.kind == "caught" and e.name == nm for e in fr.st.events))
+    S["caught"] = caught
+
+    def last_result_truthy(eng, fr, name):
+        nm = name.t.as_string()
+        evs = [e for e in fr.st.events if e.kind == "call" and e.name.split(":")[-1] == nm]
+        if not evs or (evs[-1].extra or {}).get("result") is None:
+            return mk_bool(False)
+        return mk_bool(eng.truth(evs[-1].extra["result"], fr))
+    S["last_result_truthy"] = last_result_truthy
+
     # ------------------------------------------------------------------ lazy iterators: map / chain.from_iterable
     def map_hook(eng, fr, args, node):
         if len(args) != 2:
